@@ -328,6 +328,32 @@ def run(tier="quick", seed=0, pid=None):
         except Exception as e:     # noqa
             fail("C07", "bean_roundtrip", {"value": label(v), "local_class_table": "unrelated class under the same short name"},
                  "%s: %s" % (type(e).__name__, e))
+    # two class tables (a client's and a server's, say) bind the same bare name to different classes, and one table is
+    # re-bound after a first load: every load resolves the name in the table it is given, at that moment
+    def _local(tag):
+        class Point(object):
+            def __init__(self):
+                self.x, self.tag = 1, tag
+        Point.__module__ = "__main__"           # dumped under its bare name, as a locally defined class is
+        return Point
+    PA, PB, PC = _local("a"), _local("b"), _local("c")
+    ta, tb = C.Config(), C.Config()
+    ta.classes.add(PA, "Point")
+    tb.classes.add(PB, "Point")
+    steps = [(PA, ta, "first table"), (PB, tb, "second table, same name"), (PA, ta, "first table again")]
+    for cls, cfg_, what in steps + [(PC, ta, "first table after re-registration")]:
+        n += 1
+        if cls is PC:
+            ta.classes.add(PC, "Point")
+        try:
+            d = JC.dump({"k": [cls()]}, config=cfg_)
+            back = JC.load(d, cfg_.classes)["k"][0]
+            if type(back) is not cls or back.tag != cls().tag:
+                fail("C07", "bean_roundtrip", {"class": "Point", "local_class_table": what},
+                     "rebuilt as an instance of %s" % ("another class bound to that name earlier or elsewhere"
+                                                       if type(back) in (PA, PB, PC) else type(back).__name__))
+        except Exception as e:     # noqa
+            fail("C07", "bean_roundtrip", {"class": "Point", "local_class_table": what}, "%s: %s" % (type(e).__name__, e))
     for v in (decimal.Decimal("1.50"), m.Color.RED, [decimal.Decimal("-0.1"), {"c": m.Color.BLUE}]):
         n += 1
         try:
